@@ -1477,7 +1477,9 @@ func bindInit(c *core.Case) {
 	}
 	replyKind := []string{"result", "result", "result-other-resource", "result-special",
 		"result-other-local", "result-other-local", "result-other-domain", "result-domain-only", "result-unrelated",
-		"error", "wrong-id", "type-get", "type-set", "no-type", "truncated", "text", "result-no-jid", "other-element", "wrong-ns", "error-no-child"}[r.Intn(20)]
+		"error", "wrong-id", "type-get", "type-set", "no-type", "truncated", "text", "result-no-jid", "other-element", "wrong-ns", "error-no-child",
+		// replies that do not carry the request's id: none, empty, a prefix of it, with white space around it, qualified
+		"no-id", "empty-id", "id-prefix", "id-padded", "id-qualified-only"}[r.Intn(25)]
 	edge := false
 	// The server's choice is independent of what the client was configured
 	// with: same address, other resource, other or newly given localpart
@@ -1579,6 +1581,19 @@ func bindInitCase(c *core.Case, ws bool, origin jid.JID, replyKind string, assig
 			return `<iq` + iqns + ` type='error' id='` + eid + `'/>`
 		case "wrong-id":
 			return `<iq` + iqns + ` type='result' id='` + eid + `x'>` + bind + `</iq>`
+		case "no-id":
+			return `<iq` + iqns + ` type='result'>` + bind + `</iq>`
+		case "empty-id":
+			return `<iq` + iqns + ` type='result' id=''>` + bind + `</iq>`
+		case "id-prefix":
+			if len(id) < 2 {
+				return `<iq` + iqns + ` type='result' id='` + eid + `x'>` + bind + `</iq>`
+			}
+			return `<iq` + iqns + ` type='result' id='` + hspeer.Esc(id[:len(id)-1]) + `'>` + bind + `</iq>`
+		case "id-padded":
+			return `<iq` + iqns + ` type='result' id=' ` + eid + ` '>` + bind + `</iq>`
+		case "id-qualified-only":
+			return `<iq` + iqns + ` type='result' xmlns:q='urn:verif:q' q:id='` + eid + `'>` + bind + `</iq>`
 		case "type-get":
 			return `<iq` + iqns + ` type='get' id='` + eid + `'>` + bind + `</iq>`
 		case "type-set":
@@ -1694,6 +1709,12 @@ func bindInitCase(c *core.Case, ws bool, origin jid.JID, replyKind string, assig
 		}
 	case "result-no-jid":
 		c.Count("bind_result_without_jid:"+fmt.Sprint(cerr == nil), 1)
+	case "id-qualified-only":
+		// encoding/xml matches an `id,attr` field against an attribute named id in
+		// any namespace, so the library reads q:id as the reply's id.  Whether
+		// such a reply "carries the request's id" is not something the statement
+		// decides: counted, not judged.
+		c.Count("bind_reply_with_only_a_qualified_id_attribute_accepted:"+fmt.Sprint(cerr == nil), 1)
 	default:
 		if cerr == nil || ready(sess) {
 			c.Violate("hdr:bind:accepted:"+replyKind, "bind reply of kind %q was taken as success: error=%v Ready=%v LocalAddr=%q", replyKind, cerr, ready(sess), sess.LocalAddr())
